@@ -134,6 +134,10 @@ func NewFloatFromString(typ *types.FloatType, s string) (*Float, error) {
 			}
 			f := float128ppc.NewFromBits(a, b)
 			x, nan := f.Big()
+			if nan && a>>63 != 0 {
+				// Store sign of NaN (float128ppc drops it).
+				x.SetFloat64(-1)
+			}
 			return &Float{Typ: typ, X: x, NaN: nan}, nil
 		// half (IEEE 754 half precision)
 		case strings.HasPrefix(s, "0xH"):
@@ -427,6 +431,10 @@ func (c *Float) Ident() string {
 				a, b = float128ppc.NegNaN.Bits()
 			}
 			return fmt.Sprintf("0x%c%016X%016X", hexPrefix, a, b)
+		}
+		if c.X.IsInf() && c.X.Signbit() {
+			// float128ppc.NegInf is +Inf.
+			return fmt.Sprintf("0x%c%016X%016X", hexPrefix, math.Float64bits(math.Inf(-1)), 0)
 		}
 		f, acc := float128ppc.NewFromBig(c.X)
 		if acc != big.Exact {
